@@ -7,8 +7,9 @@
    trees; [conforms sch ty v]: v is a tree of message type ty; [good_path]: the declarative reading of
    a valid path (Msg/PathProofs.v); [get_at q v]: the sub-tree of v at position q (a chain of singular
    message fields). *)
-From SC Require Import Base.Prelude Msg.Msg Msg.Schema Msg.Path Msg.PathProofs Msg.FmUtils Msg.ProtoOps
-  Masks.Get Masks.GetProofs Masks.Update Masks.UpdateProofs Masks.C05Judge Gen.Schema.
+From SC Require Import Base.Prelude Msg.Msg Msg.Schema Msg.Path Msg.PathProofs Msg.PathAlgebra Msg.FmUtils Msg.ProtoOps
+  Masks.Get Masks.GetProofs Masks.Update Masks.UpdateProofs Masks.Options Masks.OptionsProofs
+  Masks.C05Judge Masks.C05JudgeProofs Gen.Schema.
 Local Open Scope string_scope.
 
 (* Validate accepts exactly: update mask valid, every update path equal to or nested inside some
@@ -47,6 +48,30 @@ Theorem C05_more_update_spec : forall um moreu,
                 (In p qs -> In p (ps ++ extra)%list)).
 Proof. exact more_update_spec. Qed.
 Print Assumptions C05_more_update_spec.
+
+(* ... and every one of those paths is validated (fix 3a4e7e7): one path of the update mask or of the extra
+   update paths that is not a valid path of the type, or lies outside every writable path, and the write
+   is rejected with InvalidArgument whatever the other paths are *)
+Theorem C05_more_update_all_validated : forall sch ty ps extra wm rm p,
+  In p (ps ++ extra)%list ->
+  (~ good_path sch ty p \/ (exists ws, wm = Some ws /\ forall w, In w ws -> is_prefix w p = false)) ->
+  validate_update sch ty (effective_update (Some ps) (Some extra)) wm rm = code_invalid_argument.
+Proof. exact more_update_all_validated. Qed.
+Print Assumptions C05_more_update_all_validated.
+
+(* defect (fixed, 3a4e7e7): WithMoreUpdateMask merged with fieldmaskpb.Union, which normalizes: the unknown
+   path ambient_humidity.value (ambient_humidity is a scalar) next to the extra path ambient_humidity
+   disappeared before Validate and the write was accepted (and cleared ambient_humidity) *)
+Theorem C05_more_update_v0_refuted :
+  let ty := "smartcore.traits.AirTemperature" in
+  let um := Some [["ambient_humidity"; "value"]] in let moreu := Some [["ambient_humidity"]] in
+  let stored := VM [("ambient_humidity", VS (SF32 1075838976))] in
+  conforms the_schema ty stored = true /\
+  fm_valid the_schema ty (mask_paths um) = false /\
+  effective_update_v0 um moreu = moreu /\
+  write the_schema ty false None None (effective_update_v0 um moreu) None stored (VM []) = WOk (VM []) /\
+  write the_schema ty false None None (effective_update um moreu) None stored (VM []) = WErr code_invalid_argument.
+Proof. vm_compute. repeat split; reflexivity. Qed.
 
 (* an empty non-nil update mask changes nothing *)
 Theorem C05_empty_mask_noop : forall sch ty wm rm dst src,
@@ -275,6 +300,136 @@ Theorem C05_parent_and_child_v0_refuted :
   (exists s', merge the_schema tat (Some [["default_int32"]]) None (Some [[dfm]; [dfm; "c"]]) st0 wr0 =
               MOk (VM [("default_int32", VS (SInt 100))]) s').
 Proof. vm_compute. repeat split; eexists; reflexivity. Qed.
+
+(* ---------------------------------------------------------------------------------------------------- *)
+(* THE OPTION PLUMBING of pkg/resource/opt.go as mask algebra (Masks/Options.v): the write options are    *)
+(* folded over the request record in the order given, exactly as ComputeWriteConfig does.                 *)
+
+(* UPDATE MASK in force: no WithUpdateMask: nil, whatever WithMoreUpdateMask says; otherwise the LAST
+   WithUpdateMask decides - nil stays nil, a non-nil mask gets exactly the paths of the WithMoreUpdateMask
+   options that FOLLOW it appended, in order, as given *)
+Theorem C05_update_mask_of_opts :
+  (forall opts, forallb (fun o => negb (is_update_opt o)) opts = true ->
+     w_update (compute_wreq opts) = None) /\
+  (forall pre m post, forallb (fun o => negb (is_update_opt o)) post = true ->
+     w_update (compute_wreq (pre ++ OUpdateMask m :: post)%list) =
+     match m with None => None | Some ps => Some (ps ++ flat_map more_update_paths post)%list end).
+Proof. exact update_mask_of_opts. Qed.
+Print Assumptions C05_update_mask_of_opts.
+
+(* RESET MASK in force: the last WithResetMask; none: nil *)
+Theorem C05_reset_mask_of_opts :
+  (forall opts, forallb (fun o => negb (is_reset_opt o)) opts = true -> w_reset (compute_wreq opts) = None) /\
+  (forall pre m post, forallb (fun o => negb (is_reset_opt o)) post = true ->
+     w_reset (compute_wreq (pre ++ OResetMask m :: post)%list) = m).
+Proof. exact reset_mask_of_opts. Qed.
+Print Assumptions C05_reset_mask_of_opts.
+
+(* WRITABLE MASK handed to the FieldUpdater: nil (every field) when WithAllFieldsWritable occurs anywhere or
+   the resource has no writable mask - extra writable paths can never RESTRICT; otherwise a normalized
+   list that selects exactly the resource's writable paths and every extra writable path, in whatever
+   order and however many options they were given *)
+Theorem C05_writable_of_opts : forall resw opts,
+  (existsb is_allw_opt opts = true -> wreq_writable resw (compute_wreq opts) = None) /\
+  (resw = None -> wreq_writable resw (compute_wreq opts) = None) /\
+  (forall w, resw = Some w -> existsb is_allw_opt opts = false ->
+     exists l, wreq_writable resw (compute_wreq opts) = Some l /\ normal l /\
+               forall p, covers l p <-> covers w p \/ covers (flat_map more_writable_paths opts) p).
+Proof. exact writable_of_opts. Qed.
+Print Assumptions C05_writable_of_opts.
+
+(* more writable paths never turn an accepted write into a rejected one, and Validate depends on the
+   writable mask only through what it selects *)
+Theorem C05_writable_monotone : forall sch ty um ws ws' rm,
+  (forall p, covers ws p -> covers ws' p) ->
+  validate_update sch ty um (Some ws) rm = code_ok ->
+  validate_update sch ty um (Some ws') rm = code_ok.
+Proof. exact validate_writable_monotone. Qed.
+Print Assumptions C05_writable_monotone.
+
+(* EVERY UPDATE PATH IS VALIDATED, for option lists: a path of the last WithUpdateMask or of a later
+   WithMoreUpdateMask that is not a valid path of the type, or that no writable path in force covers,
+   and Value.Set answers InvalidArgument and stores nothing *)
+Theorem C05_opts_every_update_path_validated : forall sch ty resw pre ps post stored written p,
+  forallb (fun o => negb (is_update_opt o)) post = true ->
+  In p (ps ++ flat_map more_update_paths post)%list ->
+  (~ good_path sch ty p \/
+   (exists ws, wreq_writable resw (compute_wreq (pre ++ OUpdateMask (Some ps) :: post)%list) = Some ws /\
+               ~ covers ws p)) ->
+  write_opts sch ty resw (pre ++ OUpdateMask (Some ps) :: post)%list stored written = WErr code_invalid_argument.
+Proof. exact opts_every_update_path_validated. Qed.
+Print Assumptions C05_opts_every_update_path_validated.
+
+(* the single-option plumbing used by the other theorems is this fold on one-option lists *)
+Theorem C05_single_options_are_folds : forall allw resw more um moreu,
+  effective_writable allw resw more =
+  wreq_writable resw (compute_wreq ((if allw then [OAllWritable] else []) ++
+                                    match more with Some x => [OMoreWritable (Some x)] | None => [] end)%list) /\
+  effective_update um moreu =
+  w_update (compute_wreq (OUpdateMask um :: match moreu with Some x => [OMoreUpdateMask (Some x)] | None => [] end)).
+Proof. intros. split; [apply effective_writable_is_fold|apply effective_update_is_fold]. Qed.
+Print Assumptions C05_single_options_are_folds.
+
+(* Merge only ever looks at normalized copies of its masks, so un-normalized masks (duplicates, a path
+   below another path - valid or not) mean their normalization; in particular the repair 3a4e7e7 changed
+   what Validate sees, not what an accepted write does *)
+Theorem C05_merge_normalizes : forall sch ty um wm rm dst src,
+  merge sch ty (norm_mask um) wm rm dst src = merge sch ty um wm rm dst src /\
+  merge sch ty um (norm_mask wm) rm dst src = merge sch ty um wm rm dst src /\
+  merge sch ty um wm (norm_mask rm) dst src = merge sch ty um wm rm dst src /\
+  (forall moreu, merge sch ty (effective_update um moreu) wm rm dst src =
+                 merge sch ty (effective_update_v0 um moreu) wm rm dst src).
+Proof.
+  intros. split; [apply merge_norm_update|]. split; [apply merge_norm_writable|].
+  split; [apply merge_norm_reset|]. intros. apply more_update_merge_same.
+Qed.
+Print Assumptions C05_merge_normalizes.
+
+(* the mask algebra: Union selects what either mask selects (hence commutative, associative, idempotent
+   on selections), Normalize is idempotent and yields a strictly sorted list without nested paths *)
+Theorem C05_mask_algebra : forall a b c p,
+  (covers (fm_union a b) p <-> covers a p \/ covers b p) /\
+  (covers (fm_union a b) p <-> covers (fm_union b a) p) /\
+  (covers (fm_union (fm_union a b) c) p <-> covers (fm_union a (fm_union b c)) p) /\
+  normalize_paths (fm_union a b) = fm_union a b /\ normal (fm_union a b) /\
+  (fm_union a b = [] <-> (a ++ b)%list = []).
+Proof.
+  intros. split; [apply union_covers_iff|]. split; [apply union_covers_comm|].
+  split; [apply union_covers_assoc|]. split; [apply union_normalized_arg|].
+  split; [apply normalize_is_normal|apply normalize_nil_iff].
+Qed.
+Print Assumptions C05_mask_algebra.
+
+(* the judge's independent right-to-left reading of an option list is the model's in-order fold, and the
+   code it expects is the code Validate answers on the folded request whenever the generator's validity
+   tags are right about the masks in force *)
+Theorem C05_judge_opts_sound : forall (ty : string) (resw : mask) (opts : list wopt) (mtag rtag : Z),
+  spec_um_opts opts = w_update (compute_wreq opts) /\
+  spec_rm_opts opts = w_reset (compute_wreq opts) /\
+  (((mtag =? 0)%Z = valid_or the_schema ty (spec_um_opts opts)) ->
+   ((rtag =? 0)%Z = valid_or the_schema ty (spec_rm_opts opts)) ->
+   expected_code (spec_um_opts opts) (spec_weff_opts resw opts) mtag rtag (spec_rm_opts opts) =
+   validate_update the_schema ty (w_update (compute_wreq opts)) (wreq_writable resw (compute_wreq opts))
+                   (w_reset (compute_wreq opts))).
+Proof.
+  intros. split; [apply spec_um_opts_is_fold|]. split; [apply spec_rm_opts_is_fold|].
+  apply expected_code_opts_sound.
+Qed.
+Print Assumptions C05_judge_opts_sound.
+
+Example C05_nonvacuous_opts :
+  let opts := [OMoreUpdateMask (Some [["zzz"]]); OUpdateMask (Some [[dfm; "c"]]); OMoreWritable (Some [[dfm; "c"]]);
+               OResetMask (Some [["default_int32"]]); OMoreUpdateMask (Some [["default_int32"]]);
+               OMoreWritable (Some [["default_int32"]; [dfm; "c"; "x"]]); OResetMask None] in
+  w_update (compute_wreq opts) = Some [[dfm; "c"]; ["default_int32"]] /\
+  w_reset (compute_wreq opts) = None /\
+  wreq_writable (Some [["default_string"]]) (compute_wreq opts) =
+    Some [[dfm; "c"]; ["default_int32"]; ["default_string"]] /\
+  write_opts the_schema tat (Some [["default_string"]]) opts st0 wr0 =
+    WOk (VM [("default_int32", VS (SInt 100)); (dfm, VM [("c", VS (SInt 5)); ("d", VS (SInt 2))])]) /\
+  write_opts the_schema tat (Some [["default_string"]]) (opts ++ [OMoreUpdateMask (Some [[dfm; "c"; "x"]])])%list st0 wr0 =
+    WErr code_invalid_argument.
+Proof. vm_compute. repeat split; reflexivity. Qed.
 
 (* ---- non-vacuity ---- *)
 Example C05_nonvacuous_write :
